@@ -533,6 +533,27 @@ def pose(ctx, d):
     _req_hm(ctx, I2, IDENT, dst, dst, tol_i, "inv-compose", "A.dot(A.inv())")
     _req_hm(ctx, I3, IDENT, src, src, tol_i, "inv-compose", "A.transform(A.inv())")
 
+    # -- caller-owned buffers reused after construction (an ego-pose accumulator, one 4x4 scratch matrix for successive
+    #    frames): whatever the transform's value then is, its position-only form, its pose form and its matrix agree --------
+    shift = np.array([3.5, -2.25, 1.0])
+    buf3 = np.array(tf[0], dtype=float)
+    buf4 = np.array(_mat4(tf), dtype=float)
+    forms = {}
+    with ctx.under_test("HomogeneousMatrix on a reused buffer"):
+        B3 = HomogeneousMatrix(buf3, _mk_rot(tf[1], "quat"), src, dst)
+        B4 = HomogeneousMatrix.from_matrix(buf4, src, dst)
+        buf3 += shift
+        buf4[:3, 3] += shift
+        for name, B in (("position-array", B3), ("from_matrix", B4)):
+            forms[name] = (B.transform(arg_p), B.transform(arg_p, arg_q)[0], B.matrix.dot(np.array([p[0], p[1], p[2], 1.0]))[:3])
+    for name, (only_p, pose_p, mat_p) in forms.items():
+        ok = all(_vec3(ctx, v, f"reused-buffer {name}") is not None for v in (only_p, pose_p, mat_p))
+        if not ok:
+            continue
+        tol_b = REL * (1 + scale + 5.0)
+        agree = max(float(np.max(np.abs(np.asarray(only_p, dtype=float) - np.asarray(x, dtype=float)))) for x in (pose_p, mat_p)) <= tol_b
+        ctx.require(agree, "forms-disagree-after-buffer-reuse", lambda: f"transform built from a caller's {name} buffer that was then updated in place: transform(p)={list(only_p)}, transform(p, q)[0]={list(pose_p)}, matrix.dot(p)={list(mat_p)}")
+
     # -- mismatched frames (src != dst, so A cannot follow A) -----------------------------------
     _expect_raise(ctx, lambda: A.dot(A), (ValueError,), "mismatch:dot", f"A.dot(A) with A: {src}->{dst}")
     _expect_raise(ctx, lambda: A.transform(A), (ValueError,), "mismatch:transform", f"A.transform(A) with A: {src}->{dst}")
